@@ -139,8 +139,8 @@ end summary
 /-! ### the status task: what is counted is published until it is cleared, and it is cleared a day after the task started
 
 `loop_status` publishes the summary in every iteration and clears it when `start_time.elapsed() >= map_clear_duration`,
-`start_time` being the moment the task started or last cleared (generated facts: the duration, the test, the two
-places `start_time` is set). Denials can be recorded before the task runs its first iteration (the task is started
+`start_time` being the moment the task started or last cleared (generated facts: the duration, the test that
+guards the clearing, the timer being restarted there). Denials can be recorded before the task runs its first iteration (the task is started
 only once provisioning has finished or timed out). -/
 section statusTask
 variable {κ : Type} [DecidableEq κ]
